@@ -1,0 +1,108 @@
+//go:build verif
+
+package influxdb
+
+// Contracts checked by /verif/gvc. Comment-only file (build tag verif).
+
+// The three callbacks of a flush. They may do anything except reach into the flush object itself
+// (ownership assumption); a buffer handed to cb must exist, releaseBuffer accepts a missing one.
+//@ functype flushCB(buf, seriesCount) sig func(*bytes.Buffer, uint64)
+//@   requires buf != nil
+//@   modifies everything
+//@   preserves influxdb.flush
+//@ functype getBufferFn() sig func() (*bytes.Buffer, io.WriteCloser)
+//@   ensures  (result0 == nil) == (result1 == nil)
+//@   modifies everything
+//@   preserves influxdb.flush
+//@ functype releaseBufferFn(buf) sig func(*bytes.Buffer)
+//@   modifies everything
+//@   preserves influxdb.flush
+
+// FlushOK: a flush in progress holds its callbacks, an error counter, and a buffer together with its writer.
+//@ pred FlushOK(f *flush) := f != nil && f.cb != nil && f.getBuffer != nil && f.releaseBuffer != nil && f.errorCounter != nil && f.metricsPerBatch >= 1
+//@ pred HasBuf(f *flush) := f.buffer != nil && f.writer != nil
+
+//@ func (*flush).flush
+//@   requires FlushOK(f) && HasBuf(f)
+//@   ensures  FlushInv(f) && f.metricCount == 0
+//@   modifies everything
+
+//@ func (*flush).maybeFlush
+//@   requires FlushOK(f) && HasBuf(f)
+//@   ensures  FlushInv(f)
+//@   modifies everything
+
+// finish sends what is left and gives the buffer back -- if there still is one (getBuffer returns none once
+// the context is done).
+//@ func (*flush).finish
+//@   requires FlushOK(f) && HasBuf(f)
+//@   modifies everything
+
+// (formatNameTags sorts and appends inside slices it allocates itself; stated coarsely as "may write string slices")
+//@ func formatNameTags
+//@   modifies allElems(string)
+//@ func writeName
+//@   requires w != nil
+//@   modifies allElems(string)
+
+//@ func (*flush).addCounter
+//@   requires FlushOK(f) && HasBuf(f)
+//@   ensures  FlushInv(f)
+//@   modifies everything
+//@ func (*flush).addGauge
+//@   requires FlushOK(f) && HasBuf(f)
+//@   ensures  FlushInv(f)
+//@   modifies everything
+//@ func (*flush).addSet
+//@   requires FlushOK(f) && HasBuf(f)
+//@   ensures  FlushInv(f)
+//@   modifies everything
+//@ func (*flush).addBaseTimer
+//@   requires FlushOK(f) && HasBuf(f)
+//@   ensures  FlushInv(f)
+//@   modifies everything
+// A timer carries a histogram that may be empty (bucket limit 0) -- see statsd.emptyHistogram.
+//@ func (*flush).addHistogramTimer
+//@   requires FlushOK(f) && HasBuf(f) && timer.Histogram != nil
+//@   ensures  FlushInv(f)
+//@   loop 1 invariant forall k gostatsd.HistogramThreshold :: visited(1)[k] ==> len(sb.buf) > 0
+//@   modifies everything
+
+// getBuffer yields a buffer with its writer, or neither once the context is done (assumed: the buffers kept in
+// the semaphore channel exist, gzip.NewWriterLevel succeeds for a valid level).
+//@ func (*Client).getBuffer
+//@   trusted
+//@   ensures  (result0 == nil) == (result1 == nil)
+//@   modifies everything
+//@   preserves influxdb.flush, influxdb.Client
+//@ func (*Client).releaseBuffer
+//@   requires idb != nil
+//@   modifies everything
+//@   preserves influxdb.flush, influxdb.Client
+
+//@ pred FlushInv(f *flush) := FlushOK(f) && (f.buffer == nil) == (f.writer == nil) && (f.buffer == nil ==> f.metricCount == 0)
+//@ func (*Client).processMetrics$2
+//@   iter invariant FlushInv(fl)
+//@   requires FlushInv(fl)
+//@   ensures  FlushInv(fl)
+//@   modifies everything
+//@ func (*Client).processMetrics$3
+//@   iter invariant FlushInv(fl)
+//@   requires FlushInv(fl)
+//@   ensures  FlushInv(fl)
+//@   modifies everything
+//@ func (*Client).processMetrics$4
+//@   iter invariant FlushInv(fl)
+//@   requires FlushInv(fl)
+//@   ensures  FlushInv(fl)
+//@   modifies everything
+//@ func (*Client).processMetrics$5
+//@   iter invariant FlushInv(fl)
+//@   requires FlushInv(fl)
+//@   ensures  FlushInv(fl)
+//@   modifies everything
+
+// processMetrics never crashes, whatever the aggregate holds and whenever the context is cancelled.
+//@ func (*Client).processMetrics
+//@   requires idb != nil && metrics != nil && cb != nil && idb.metricsPerBatch >= 1
+//@   modifies everything
